@@ -185,6 +185,9 @@ def _eliminate_returns(stmts, var, budget, cont=None):
                 value=clone(st.value) if st.value is not None
                 else ast.Constant(value=None)), st))
             return out, True
+        if isinstance(st, ast.Raise):
+            out.append(clone(st))
+            return out, True       # nothing after a raise is reached
         if not _has_return(st):
             out.append(clone(st))
             continue
@@ -306,9 +309,10 @@ def _instantiate(h: Helper, call: ast.Call, caller_names, counter):
 
 
 def _instantiate_cont(h: Helper, call, caller_names, counter, on_true,
-                      on_false):
+                      on_false, cont=None):
     """`if helper(..): on_true else: on_false` with the helper's body in
-    place and the continuation attached to each of its returns"""
+    place and the continuation attached to each of its returns (or an
+    arbitrary continuation `cont(value) -> statements`)"""
     if h.raw_body is None:
         return None
     b = _bind(h, call, caller_names, counter)
@@ -316,8 +320,11 @@ def _instantiate_cont(h: Helper, call, caller_names, counter, on_true,
         return None
     prelude, sub = b
     body = [sub.visit(clone(s)) for s in h.raw_body]
+    given = cont
 
     def cont(value):
+        if given is not None:
+            return given(value)
         if value is None or (isinstance(value, ast.Constant)
                              and not value.value):
             return [clone(s) for s in on_false] or [ast.Pass()]
@@ -402,6 +409,10 @@ def _bind(h: Helper, call: ast.Call, caller_names, counter):
                 prelude.append(ast.copy_location(ast.Assign(
                     targets=[ast.Name(id=new, ctx=ast.Store())],
                     value=clone(a)), call))
+    # names this instantiation introduces are taken from now on
+    if isinstance(caller_names, set):
+        caller_names.update(renames.values())
+        caller_names.update(locals_ - set(renames))
     return prelude, _Subst(mapping, renames)
 
 
@@ -509,6 +520,28 @@ class Inliner:
             val = st.value
         if isinstance(val, ast.Call):
             h = self._match(val, cls)
+            if h is not None and h.fn is not fn and h.kind == "multi" and (
+                    isinstance(st, (ast.Return, ast.Expr)) or (
+                        isinstance(st, ast.Assign) and len(st.targets) == 1
+                        and isinstance(st.targets[0], ast.Name))):
+                # the statement is attached to every return of the helper
+                def k(value, st=st):
+                    v = value if value is not None else ast.Constant(
+                        value=None)
+                    if isinstance(st, ast.Return):
+                        return [ast.Return(value=v)]
+                    if isinstance(st, ast.Expr):
+                        return [ast.Pass()]
+                    return [ast.Assign(targets=[clone(st.targets[0])],
+                                       value=v)]
+                inst = _instantiate_cont(h, val, names, self.counter, [], [],
+                                         cont=k)
+                if inst is not None:
+                    self.used.add((h.cls, h.fn.name))
+                    changed[0] = True
+                    for s_ in inst:
+                        ast.copy_location(s_, st)
+                    return inst
             if h is not None and h.fn is not fn:
                 inst = _instantiate(h, val, names, self.counter)
                 if inst is not None:
@@ -732,8 +765,9 @@ class Idioms(ast.NodeTransformer):
 class Unroll(ast.NodeTransformer):
     """`for v in [<=4 literal items>]: <small body>` -> the body repeated
     with v substituted (no break/continue/else, v not re-bound)."""
-    MAX_ITEMS = 4
+    MAX_ITEMS = 12
     MAX_BODY = 6
+    MAX_TOTAL = 40
 
     @staticmethod
     def _item_ok(e):
@@ -743,6 +777,12 @@ class Unroll(ast.NodeTransformer):
             return Unroll._item_ok(e.value)
         if isinstance(e, (ast.Tuple, ast.List)):
             return all(Unroll._item_ok(x) for x in e.elts)
+        if isinstance(e, ast.Call) and norm(e) == "type(None)":
+            return True
+        if isinstance(e, ast.UnaryOp) and isinstance(
+                e.op, (ast.USub, ast.UAdd)) and isinstance(
+                e.operand, ast.Constant):
+            return True
         return False
 
     def visit_For(self, node):
@@ -751,12 +791,16 @@ class Unroll(ast.NodeTransformer):
         if node.orelse or not isinstance(it, (ast.List, ast.Tuple)) or \
                 not (1 <= len(it.elts) <= self.MAX_ITEMS) or \
                 len(node.body) > self.MAX_BODY or \
+                (len(it.elts) > 4 and len(it.elts) * sum(
+                    1 for _ in ast.walk(ast.Module(body=node.body,
+                                                   type_ignores=[]))
+                    if isinstance(_, ast.stmt)) > self.MAX_TOTAL) or \
                 not all(self._item_ok(e) for e in it.elts):
             return node
         targets = target_names(node.target)
         for n in ast.walk(ast.Module(body=node.body, type_ignores=[])):
-            if isinstance(n, (ast.Break, ast.Continue, ast.Return,
-                              ast.FunctionDef, ast.Lambda)):
+            if isinstance(n, (ast.Break, ast.Continue, ast.FunctionDef,
+                              ast.Lambda)):
                 return node
             if isinstance(n, ast.Name) and n.id in targets and isinstance(
                     n.ctx, (ast.Store, ast.Del)):
@@ -1036,12 +1080,30 @@ def module_constants(tree):
             if _scalar_const(v2):
                 scal[name] = v2
                 progress = True
-            elif _literal_coll(v2):
+            elif _literal_coll(v2) or _static_table(v2):
                 coll[name] = v2
                 progress = True
         if not progress:
             break
     return scal, coll
+
+
+def _static_table(v):
+    """dict literal whose keys/values are names, attributes, constants,
+    tuples of those or type(None) - a dispatch table"""
+    def simple(e, d=0):
+        if isinstance(e, (ast.Name, ast.Constant)):
+            return True
+        if isinstance(e, ast.Attribute):
+            return simple(e.value, d)
+        if isinstance(e, (ast.Tuple, ast.List)) and d < 2:
+            return all(simple(x, d + 1) for x in e.elts)
+        if isinstance(e, ast.Call) and norm(e) == "type(None)":
+            return True
+        return False
+    return isinstance(v, ast.Dict) and v.keys and all(
+        k is not None and simple(k) and simple(x)
+        for k, x in zip(v.keys, v.values))
 
 
 def _fold_strings(e):
@@ -1097,6 +1159,19 @@ class Idioms2(ast.NodeTransformer):
                          values=[kw.value for kw in node.keywords])
             node.args, node.keywords = [d], []
             return node
+        # len("literal") -> its length
+        if isinstance(f, ast.Name) and f.id == "len" and \
+                len(node.args) == 1 and not node.keywords and isinstance(
+                    node.args[0], ast.Constant) and isinstance(
+                    node.args[0].value, (str, bytes)):
+            return ast.copy_location(ast.Constant(
+                value=len(node.args[0].value)), node)
+        # isinstance(x, type(None)) -> x is None
+        if isinstance(f, ast.Name) and f.id == "isinstance" and \
+                len(node.args) == 2 and norm(node.args[1]) == "type(None)":
+            return ast.copy_location(ast.Compare(
+                left=node.args[0], ops=[ast.Is()],
+                comparators=[ast.Constant(value=None)]), node)
         # dict.fromkeys(<literal keys>, v) -> {k: v, ...}
         if isinstance(f, ast.Attribute) and f.attr == "fromkeys" and \
                 isinstance(f.value, ast.Name) and f.value.id == "dict" and \
@@ -1128,10 +1203,26 @@ class Idioms2(ast.NodeTransformer):
 
     def visit_For(self, node):
         self.generic_visit(node)
-        if isinstance(node.iter, ast.Name) and node.iter.id in self.coll and \
-                isinstance(self.coll[node.iter.id], (ast.Tuple, ast.List)):
-            node.iter = ast.copy_location(clone(self.coll[node.iter.id]),
-                                          node.iter)
+        it = node.iter
+        if isinstance(it, ast.Name) and it.id in self.coll and \
+                isinstance(self.coll[it.id], (ast.Tuple, ast.List)):
+            node.iter = ast.copy_location(clone(self.coll[it.id]), it)
+        # for k, v in TABLE.items()  ->  for k, v in [(k1, v1), ...]
+        if isinstance(it, ast.Call) and isinstance(it.func, ast.Attribute) \
+                and it.func.attr in ("items", "keys", "values") and \
+                not it.args and isinstance(it.func.value, ast.Name) and \
+                it.func.value.id in self.coll and isinstance(
+                    self.coll[it.func.value.id], ast.Dict):
+            d = self.coll[it.func.value.id]
+            if it.func.attr == "items":
+                elts = [ast.Tuple(elts=[clone(k), clone(v)], ctx=ast.Load())
+                        for k, v in zip(d.keys, d.values)]
+            elif it.func.attr == "keys":
+                elts = [clone(k) for k in d.keys]
+            else:
+                elts = [clone(v) for v in d.values]
+            node.iter = ast.copy_location(ast.List(elts=elts,
+                                                   ctx=ast.Load()), it)
         return node
 
     def _stmts(self, body):
@@ -1140,7 +1231,66 @@ class Idioms2(ast.NodeTransformer):
             out.extend(self._split(st))
         return out
 
+    def visit_JoinedStr(self, node):
+        self.generic_visit(node)
+        # f"{'lit'}{x}" -> f"lit{x}" (constants substituted into templates)
+        vals = []
+        for v in node.values:
+            if isinstance(v, ast.FormattedValue) and isinstance(
+                    v.value, ast.Constant) and isinstance(
+                    v.value.value, str) and v.conversion == -1 and \
+                    v.format_spec is None:
+                v = ast.Constant(value=v.value.value)
+            if isinstance(v, ast.Constant) and vals and isinstance(
+                    vals[-1], ast.Constant):
+                vals[-1] = ast.Constant(value=vals[-1].value + v.value)
+            else:
+                vals.append(v)
+        if len(vals) == 1 and isinstance(vals[0], ast.Constant):
+            return ast.copy_location(vals[0], node)
+        node.values = vals
+        return node
+
+    def visit_BinOp(self, node):
+        self.generic_visit(node)
+        # "lit" + x (strings) -> f"lit{x}" is not done; but "a" + "b" -> "ab"
+        if isinstance(node.op, ast.Add) and all(
+                isinstance(x, ast.Constant) and isinstance(x.value, str)
+                for x in (node.left, node.right)):
+            return ast.copy_location(ast.Constant(
+                value=node.left.value + node.right.value), node)
+        return node
+
+    def visit_BoolOp(self, node):
+        self.generic_visit(node)
+        # constant operands (e.g. flags of an inlined helper)
+        vals = []
+        for v in node.values:
+            if isinstance(v, ast.Constant) and isinstance(v.value, bool):
+                if isinstance(node.op, ast.And):
+                    if v.value:
+                        continue
+                    return ast.copy_location(ast.Constant(value=False), node) \
+                        if not vals else node
+                else:
+                    if not v.value:
+                        continue
+                    return ast.copy_location(ast.Constant(value=True), node) \
+                        if not vals else node
+            vals.append(v)
+        if not vals:
+            return ast.copy_location(ast.Constant(
+                value=isinstance(node.op, ast.And)), node)
+        if len(vals) == 1:
+            return vals[0]
+        node.values = vals
+        return node
+
     def _split(self, st):
+        # if True: A else: B -> A ; if False: A else: B -> B
+        if isinstance(st, ast.If) and isinstance(st.test, ast.Constant) \
+                and isinstance(st.test.value, bool):
+            return list(st.body if st.test.value else st.orelse)
         # a, b = x, y  ->  a = x; b = y   (no target read by any value)
         if isinstance(st, ast.Assign) and len(st.targets) == 1 and \
                 isinstance(st.targets[0], (ast.Tuple, ast.List)) and \
@@ -1644,10 +1794,16 @@ def normalize_module(tree: ast.Module, extern=None) -> ast.Module:
         tree = _ConstInline(scal).visit(tree)
     _inline_decorators(tree)
     _inline_contextmanagers(tree)
-    tree = Inliner(tree).run()
-    tree = Idioms().visit(tree)
-    tree = Idioms2(coll).visit(tree)
-    tree = Unroll().visit(tree)
+    for _round in range(2):
+        before = ast.dump(tree) if _round else None
+        tree = Inliner(tree).run()
+        tree = Idioms().visit(tree)
+        tree = Idioms2(coll).visit(tree)
+        tree = Unroll().visit(tree)
+        if _round and ast.dump(tree) == before:
+            break
+        # (a second round folds helpers that only became direct calls
+        # after a dispatch loop was unrolled)
     tree = AttrCalls().visit(tree)
     ntypes = _namedtuples(tree)
     for n in ast.walk(tree):
